@@ -173,6 +173,12 @@ func history(h *apph.H, r *emit.Rand, richness int) (log []string, err error) {
 		block()
 	}
 
+	// ---- degenerate-but-valid records through the message handlers (logged when rejected)
+	if richness >= 2 || r.Chance(1, 2) {
+		degenerateMsgs(h, note)
+		block()
+	}
+
 	// ---- from here on: exported keeper setters, on the live state, no more blocks
 	ctx := h.Ctx()
 	future := h.Time.Add(time.Duration(1000+r.Intn(100000)) * time.Second)
@@ -275,6 +281,11 @@ func history(h *apph.H, r *emit.Rand, richness int) (log []string, err error) {
 			e = h.App.FeeKeeper.Params.Set(ctx, p)
 		}
 		note("change fee params", e)
+	}
+	// degenerate-but-valid records in every collection (after the regular ones, so that none of
+	// them is overwritten)
+	if richness >= 3 || (richness == 2 && r.Chance(1, 2)) {
+		degenerateRecords(h, ctx, note)
 	}
 	return log, nil
 }
